@@ -16,7 +16,7 @@ import tempfile
 import time
 
 VERIF = os.path.dirname(os.path.dirname(os.path.abspath(__file__)))
-REPO = "/repo"
+REPO = os.environ.get("VERIF_REPO", "/repo")     # the registered checks always use /repo; the override serves seeded-change experiments on scratch worktrees
 TLA_JARS = "/opt/veriftools/tla/tla2tools.jar:/opt/veriftools/tla/CommunityModules-deps.jar"
 GOENV = {"GOFLAGS": "-mod=mod", "GOPROXY": "off", "GOSUMDB": "off", "GOTOOLCHAIN": "local"}
 NCPU = os.cpu_count() or 4
@@ -87,9 +87,18 @@ class Ctx:
         shutil.rmtree(self.work, ignore_errors=True)
 
     # -- building -------------------------------------------------------------------------
+    def modfile(self):
+        """go.mod / go.sum for the harness in the work directory (replace => REPO)."""
+        mf = os.path.join(self.work, "harness.mod")
+        if not os.path.exists(mf):
+            txt = open(os.path.join(VERIF, "harness", "go.mod")).read().replace("=> /repo", "=> " + REPO)
+            open(mf, "w").write(txt)
+            shutil.copy(os.path.join(REPO, "go.sum"), os.path.join(self.work, "harness.sum"))
+        return mf
+
     def build_harness(self, name="harness", tags=("verif",), race=False, extra_flags=(), extra_overlay_dir=None):
         hdir = os.path.join(VERIF, "harness")
-        shutil.copy(os.path.join(REPO, "go.sum"), os.path.join(hdir, "go.sum"))
+        extra_flags = tuple(extra_flags) + ("-modfile=" + self.modfile(),)
         out = os.path.join(self.work, name)
         overlay = make_overlay(self.work)
         if extra_overlay_dir:
@@ -131,9 +140,8 @@ class Ctx:
         ovp = os.path.join(self.work, name + "_overlay.json")
         json.dump(ov, open(ovp, "w"))
         hdir = os.path.join(VERIF, "harness")
-        shutil.copy(os.path.join(REPO, "go.sum"), os.path.join(hdir, "go.sum"))
         out = os.path.join(self.work, name)
-        cmd = ["go", "build", "-tags", ",".join(tags), "-overlay", ovp, "-o", out] + (["-race"] if race else []) + ["."]
+        cmd = ["go", "build", "-modfile=" + self.modfile(), "-tags", ",".join(tags), "-overlay", ovp, "-o", out] + (["-race"] if race else []) + ["."]
         pr = sh(cmd, cwd=hdir, timeout=1800, check=False)
         if pr.returncode != 0:
             raise Infra("instrumented harness build failed:\n" + pr.stdout[-6000:])
